@@ -183,13 +183,26 @@ class Report:
         self.inconclusive = []
         if not os.environ.get('VERIF_EVIDENCE_DIR'): shutil.rmtree(os.path.join(VERIF, 'replays', pid), ignore_errors=True)
         self.known = [k for k in load_known() if k.get('property') == pid and k.get('status', 'open') == 'open']
+        if os.environ.get('VERIF_IGNORE_KNOWN'): self.known = []          # development: write a replay for every violation (lib/mkknown.py reads them)
 
-    def violation(self, key, what, replay):
+    def violation(self, key, what, replay, sig=None):
+        """A violation is a known finding when its key is listed, or - for findings on emitted code, whose key ends in '#<hash of the
+        code>' - when the same input is listed and fails in the same observables (sig: the set of observables that can differ,
+        decided by the solver). So a change that alters the code of a known-wrong program without altering HOW it is wrong stays a
+        known finding; a change that makes it wrong in another observable is reported."""
         for k in self.known:
             if k['key'] == key:
                 if key not in [x[0] for x in self.known_hit]:
                     self.known_hit.append((key, k['what']))
                 return False
+        if '#' in key and sig:
+            base = key.rsplit('#', 1)[0]
+            for k in self.known:
+                if k.get('sig') and k['key'].rsplit('#', 1)[0] == base and set(sig) <= set(k['sig']) and '...' not in sig:
+                    if key not in [x[0] for x in self.known_hit]:
+                        self.known_hit.append((key, k['what'] + ' (emitted code changed, same failing observables %s)' % sorted(sig)))
+                    return False
+        if isinstance(replay, dict) and sig is not None: replay = dict(replay, sig=sorted(sig))
         if key in [v[0] for v in self.violations]:
             return True
         self.violations.append((key, what, replay))
